@@ -220,13 +220,17 @@ def reorder(aa, order):
 
 def run(ctx):
     rng = ctx.rng('mol')
-    n = ctx.budget(60, 1200)
+    n = ctx.budget(100, 1200)
     for i in range(n):
         if ctx.out_of_time():
             break
         if i % 4 == 3:
             case = gen_mol.polymer_case(rng)          # equally named beads of different composition (end / middle units)
             case.setdefault('nfrag', 2)
+        elif i % 6 == 1:
+            # several charged and neutral atoms of the same element in one molecule, in any order
+            case = gen_mol.cut_case(rng, nmin=4, nmax=9, aromatic_p=0.0, charged_p=0.5, hetero_p=0.5)
+            ctx.feature('charged-and-neutral-heteroatoms')
         else:
             case = gen_mol.cut_case(rng, nmin=3, nmax=9, aromatic_p=0.2, share_p=rng.choice([0, 0, 0.3]))
         if i % 5 == 2 and '}.{' in case['s']:
